@@ -80,7 +80,8 @@ def logical_table(nP, nT, nW, pattern, salt, ng=0):
     if pattern == 'wide':
         per_wn = np.array([1.0, 1e-3, 1e-7, 1e-10, 1.0, 1e-5, 1e-2])[:nW]
     x = fx.table(nP, nT, nW, 1e-24, salt=('c14', salt, pattern), pattern='generic', per_wn=per_wn) / 1e4
-    tab = {'wn': list(fx.WN_GRIDS[nW]), 'T': list(fx.T_GRIDS[nT]), 'P': list(fx.P_GRIDS[nP]), 'x': x}
+    wn = list(fx.WN_GRIDS[nW]) if nW in fx.WN_GRIDS else [float(v) for v in np.linspace(300.0, 30000.0, nW)]
+    tab = {'wn': wn, 'T': list(fx.T_GRIDS[nT]), 'P': list(fx.P_GRIDS[nP]), 'x': x}
     if ng:
         mult = np.array([1.0, 2.5, 0.3])[:ng]
         w = np.array([0.2, 0.5, 0.3])[:ng]
@@ -131,7 +132,7 @@ def _write(case, tab, d, name):
     c = case['container']
     path = os.path.join(d, case['fname'])
     if c == 'pickle':
-        W.write_pickle_xsec(path, tab, name=name)
+        W.write_pickle_xsec(path, tab, name=name, py2=bool(case.get('py2')))
     elif c == 'h5':
         W.write_hdf5_xsec(path, tab, name=name, unit=case['unit'], name_style=case['style'])
     elif c == 'exo':
@@ -889,6 +890,10 @@ def explore(ctx):
     for sh, nW, pat, (fn, tag), mode, via, wq in P(shapes, nWs, pats, FN_PICKLE, ['linear', 'exp'], ['cache', 'class'], wnq):
         cases.append({'container': 'pickle', 'shape': list(sh), 'nW': nW, 'pattern': pat, 'fname': fn, 'tag': tag,
                       'mode': mode, 'via': via, 'wn': wq})
+    # ... written by Python 2 (TauREx 2 files), small and of realistic size (several read buffers long)
+    for nW, mode, via, (fn, tag) in P([4, 6000] + ([20000] if thorough else []), ['linear', 'exp'], ['cache', 'class'], FN_PICKLE[:2]):
+        cases.append({'container': 'pickle', 'shape': [3, 3], 'nW': nW, 'pattern': 'generic', 'fname': fn, 'tag': tag,
+                      'mode': mode, 'via': via, 'wn': 'none', 'py2': 1})
     # HDF5
     h5shapes = shapes if thorough else shapes[:2]
     for sh, unit, st, mem, (fn, tag), mode, via, wq in P(h5shapes, units, styles, [True, False], FN_H5,
